@@ -47,8 +47,41 @@ class Site:
         return f"L{self.line}: cond={sorted(self.cond)} type={sorted(self.typ)} occ={sorted(self.occ)} inv_only={self.inv_only} unknown={self.unknown}"
 
 
+def updated_maps(fn: ast.AST) -> Set[str]:
+    """The local names that play the role of the pending-updates map: what is handed to make_child(…) and what is
+    handed to _evaluate_effect next to the effect (recognised by use, not by spelling)."""
+    out: Set[str] = set()
+    for c in walk_no_nested(fn):
+        if isinstance(c, ast.Call) and call_name(c) == "make_child" and c.args and isinstance(c.args[0], ast.Name):
+            out.add(c.args[0].id)
+        if isinstance(c, ast.Call) and call_name(c) == "_evaluate_effect":
+            for a in list(c.args) + [k.value for k in c.keywords]:
+                if isinstance(a, ast.Name) and any(isinstance(s, (ast.Assign, ast.AnnAssign)) and norm(s.targets[0] if isinstance(s, ast.Assign) else s.target) == a.id and isinstance(s.value, (ast.Dict, ast.Call)) and norm(s.value) in ("{}", "dict()") for s in walk_no_nested(fn)):
+                    out.add(a.id)
+    return out
+
+
+def mode_flags(fn: ast.AST) -> Set[str]:
+    """names whose truth is a run-time mode, not a class of effects: Boolean parameters and the result of evaluating
+    the effect's own condition (`x = ….is_true()` / `x = self._se.evaluate(…)…`)."""
+    out: Set[str] = set()
+    a = fn.args
+    for arg, default in zip(reversed(list(a.args) + list(a.kwonlyargs)), reversed(list(a.defaults) + list(a.kw_defaults))):
+        if isinstance(default, ast.Constant) and isinstance(default.value, bool):
+            out.add(arg.arg)
+    for arg in list(a.args) + list(a.kwonlyargs):
+        if arg.annotation is not None and norm(arg.annotation).strip("\"'") == "bool":
+            out.add(arg.arg)
+    for s in walk_no_nested(fn):
+        if isinstance(s, ast.Assign) and len(s.targets) == 1 and isinstance(s.targets[0], ast.Name) and any(isinstance(c, ast.Call) and call_name(c) in ("evaluate", "is_true", "bool_constant_value") for c in ast.walk(s.value)):
+            out.add(s.targets[0].id)
+    return out
+
+
 def extract_sites(f, cfg) -> List[Site]:
     sites: List[Site] = []
+    uv = updated_maps(f.node)
+    flags = mode_flags(f.node)
     for node, call in sorted(cfg_nodes_with_call(cfg, "_evaluate_effect"), key=lambda x: x[0].lineno):
         s = Site()
         s.line = call.lineno
@@ -66,18 +99,18 @@ def extract_sites(f, cfg) -> List[Site]:
                 local_defs[st.targets[0].id] = norm(st.value)
         for t, outcome in guards_dominating(cfg, node):
             txt = norm(t.ast)
-            _apply_guard(s, t.ast, outcome, local_defs)
+            _apply_guard(s, t.ast, outcome, local_defs, uv, flags)
         sites.append(s)
     return sites
 
 
-def _apply_guard(s: Site, test: ast.AST, outcome: bool, local_defs: Dict[str, str]) -> None:
+def _apply_guard(s: Site, test: ast.AST, outcome: bool, local_defs: Dict[str, str], uv: Set[str], flags: Set[str]) -> None:
     if isinstance(test, ast.UnaryOp) and isinstance(test.op, ast.Not):
-        return _apply_guard(s, test.operand, not outcome, local_defs)
+        return _apply_guard(s, test.operand, not outcome, local_defs, uv, flags)
     if isinstance(test, ast.BoolOp):
         if (isinstance(test.op, ast.And) and outcome) or (isinstance(test.op, ast.Or) and not outcome):
             for v in test.values:
-                _apply_guard(s, v, outcome, local_defs)
+                _apply_guard(s, v, outcome, local_defs, uv, flags)
             return
         s.unknown.append(norm(test))
         return
@@ -95,19 +128,19 @@ def _apply_guard(s: Site, test: ast.AST, outcome: bool, local_defs: Dict[str, st
             else:
                 s.unknown.append(txt)
             return
-        if isinstance(op, (ast.In, ast.NotIn)) and right == "updated_values":
+        if isinstance(op, (ast.In, ast.NotIn)) and right in uv:
             present = isinstance(op, ast.In) == outcome
             s.occ &= {"repeated"} if present else {"first"}
             return
-        if isinstance(op, (ast.Is, ast.IsNot)) and right == "None" and left in local_defs and local_defs[left].startswith("updated_values.get("):
+        if isinstance(op, (ast.Is, ast.IsNot)) and right == "None" and left in local_defs and any(local_defs[left].startswith(u + ".get(") for u in uv):
             present = isinstance(op, ast.IsNot) == outcome
             s.occ &= {"repeated"} if present else {"first"}
             return
         if isinstance(op, (ast.Is, ast.IsNot)) and right == "None":
             return  # g_action is None, sim_eff is not None ...: not about the effect class
-    if txt in ("full_check", "evaluated_condition", "early_termination"):
+    if txt in flags:
         return  # the run-time truth of the effect's own condition / the mode flag
-    if txt == "updated_values":
+    if txt in uv:
         return  # "some earlier entry exists": implied by occ=repeated
     if isinstance(test, ast.Call) and call_name(test) == "isinstance":
         return
@@ -169,8 +202,12 @@ def run(idx: Index, rep: Report, tier: str) -> None:
         kw = {k.arg: norm(k.value) for k in c.keywords}
         ok = kw.get("full_check") == "True" and len(c.args) >= 3 and [norm(a) for a in c.args[:3]] == ["state", "action", "parameters"]
         rep.check(ok, rule1, "_is_applicable runs the full check on its own arguments", ia.loc(c), construct=norm(c), detail="" if ok else "is_applicable does not run the full (effects + invariants) check", function=ia.qualname)
-    assigns = [n for n in walk_no_nested(ia.node) if isinstance(n, ast.Assign) and norm(n.targets[0]) == "is_applicable" and not isinstance(n.value, ast.Constant)]
-    ok = bool(assigns) and all(norm(a.value) == "reason is None" for a in assigns)
+    # the verdict: what is returned; the reason: what the call's second result is bound to
+    verdicts = {norm(r.value) for r in walk_no_nested(ia.node) if isinstance(r, ast.Return) and isinstance(r.value, ast.Name)}
+    reasons = {norm(a.targets[0].elts[1]) for a in walk_no_nested(ia.node) if isinstance(a, ast.Assign) and isinstance(a.targets[0], ast.Tuple) and len(a.targets[0].elts) == 2 and isinstance(a.value, ast.Call) and call_name(a.value) == "get_unsatisfied_conditions"}
+    assigns = [n for n in walk_no_nested(ia.node) if isinstance(n, ast.Assign) and norm(n.targets[0]) in verdicts and not isinstance(n.value, ast.Constant)]
+    direct = [r for r in walk_no_nested(ia.node) if isinstance(r, ast.Return) and r.value is not None and not isinstance(r.value, (ast.Name, ast.Constant))]
+    ok = (bool(assigns) or bool(direct)) and all(isinstance(v, ast.Compare) and len(v.ops) == 1 and isinstance(v.ops[0], ast.Is) and norm(v.left) in reasons and norm(v.comparators[0]) == "None" for v in [a.value for a in assigns] + [r.value for r in direct])
     rep.check(ok, rule1, "_is_applicable == (reason is None)", ia.loc(assigns[0]) if assigns else ia.loc(), construct=norm(assigns[0]) if assigns else "", detail="" if ok else "the verdict is not `reason is None`", function=ia.qualname)
 
     ap = idx.func(SIM + "._apply")
@@ -231,7 +268,8 @@ def run(idx: Index, rep: Report, tier: str) -> None:
                 rep.ok(rule2, f"scenario [{desc}] on one invariant-relevant ground fluent", guc.loc(), construct="+".join(c + t for c, t in sc), function=guc.qualname)
     # the query path evaluates invariants on a child of the same pre-state
     mk = [c for _, c in cfg_nodes_with_call(qcfg, "make_child")]
-    ok = bool(mk) and all(norm(c.func.value) == "state" and norm(c.args[0]) == "updated_values" for c in mk)
+    quv = updated_maps(guc.node)
+    ok = bool(mk) and all(norm(c.func.value) == "state" and c.args and norm(c.args[0]) in quv for c in mk) and all(any(isinstance(a, ast.Name) and a.id in quv for a in c.args) for _, c in cfg_nodes_with_call(qcfg, "_evaluate_effect"))
     rep.check(ok, rule2, "query path checks invariants on state.make_child(updated_values)", guc.loc(mk[0]) if mk else guc.loc(), construct=norm(mk[0]) if mk else "", function=guc.qualname)
 
     # ---------------------------------------------------------------- (3) T4 query purity across failures
